@@ -53,8 +53,13 @@ def post(ctx, rows, res, bindir):
 
 def run(ctx):
     ctx.cov["rule"] = ("ladders: 9 kinds x depths 1..1000 (quick: 17 depths, thorough: 95 depths), each in a child process, thread stack = "
-                       "erg_common::spawn STACK_SIZE; texts: half random token sequences from an 80-token pool, half 1-3 mutations "
-                       "(truncation, span deletion, token insertion, bracket/quote replacement, line range) of the repo's .er files")
+                       "erg_common::spawn STACK_SIZE; texts: half one third random token sequences from an 80-token "
+                       "pool, one third 1-3 mutations (truncation, span deletion, token insertion, bracket/quote replacement, line "
+                       "range) of the repo's .er files (parser tests, examples, tests/should_ok, tests/should_err), one third "
+                       "structured programs over type specifications and patterns (type ascriptions, declarations, parameter/return "
+                       "annotations with nested function types, `_`, `*args`/`**kwargs`, defaults, list/tuple/record/literal "
+                       "patterns, multi-clause definitions, lambdas, match/for! arms), half of them with one token-level mutation; "
+                       "every text goes through Lexer -> Parser -> Desugarer")
     ctx.assumptions = ["stack cost per nesting level is measured for the harness build profile (debug, opt-level 0)",
                        "a child killed by a signal or exiting non-zero without output is counted as a stack overflow"]
     orig = core.run_harness
